@@ -206,6 +206,16 @@ func (r *Recorder) violate(prop, kind, cause, format string, args ...interface{}
 		// this run: core safety violations attributed to C09 may be its consequence.
 		cause += "+F4"
 	}
+	if (prop == "C10" || prop == "C11") && r.c.Cfg.Membership && r.anyTaint["F4"] && kind != "snapshot-config" && !strings.Contains(cause, "+F4") {
+		// Snapshots on top of a history that F4 has already split (a C09 divergence was reported
+		// in this run): their content and labels are judged against one of the two histories.
+		for cl := range r.seenClass {
+			if strings.HasPrefix(cl, "C09/two-leaders") || strings.HasPrefix(cl, "C09/committed-divergence") || strings.HasPrefix(cl, "C09/truncated-committed") || strings.HasPrefix(cl, "C09/leader-incomplete") {
+				cause += "+F4"
+				break
+			}
+		}
+	}
 	v := Violation{Property: prop, Kind: kind, Cause: cause, Detail: fmt.Sprintf(format, args...), Seq: r.seq, TimeMs: r.c.nowMs()}
 	cl := v.Class()
 	r.seenClass[cl]++
@@ -503,6 +513,7 @@ func (r *Recorder) onRestore(inc *Incarnation, sm *ModelSM, ops []AppliedOp, dat
 	if ctx := r.ctxByTask[r.c.Sim.Cur()]; ctx != nil && ctx.Msg.Kind == KindIS && inc.haveStatus && !restartingNow(inc) {
 		if inc.lastStatus.LastApplied > ctx.Msg.IS.LastIncludedIndex {
 			defer r.setTaint(inc.Node, "F2")
+			defer r.setTaint(inc.Node, "F2r")
 			r.violate("C11", "restore-older", r.tainted(inc.Node, "behind-applied-index", "F3"), "%s: Restore of a snapshot labelled %d while the node has already applied index %d",
 				inc.Name(), ctx.Msg.IS.LastIncludedIndex, inc.lastStatus.LastApplied)
 		}
@@ -512,8 +523,17 @@ func (r *Recorder) onRestore(inc *Incarnation, sm *ModelSM, ops []AppliedOp, dat
 	restarting := inc.haveStatus && inc.lastStatus.State == raft.Shutdown
 	if len(sm.Ops) > len(ops) && !restarting {
 		defer r.setTaint(inc.Node, "F2")
+		defer r.setTaint(inc.Node, "F2r") // restored to an OLDER state: what lies between is skipped
 		r.violate("C11", "restore-older", r.tainted(inc.Node, "fewer-ops", "F3"), "%s: Restore with %d operations (last index %d) onto an instance that already applied %d (last index %d)",
 			inc.Name(), len(ops), last, len(sm.Ops), sm.lastIndexSinceRestore)
+	}
+	// Signature of F1 seen at a restore: the snapshot being restored holds operations beyond its
+	// label (it may have become visible by a rename right before a crash, in which case the
+	// observation at the close of the file never happened).
+	if inc.openedLabel > 0 && last > inc.openedLabel {
+		r.setTaint(inc.Node, "F1")
+		r.violate("C10", "snapshot-label-mismatch", "extra-entries-restored", "%s: the snapshot labelled %d it restores contains operation(s) beyond its label (last contained index %d)",
+			inc.Name(), inc.openedLabel, last)
 	}
 	r.checkOpsArePrefix(inc, ops, "installed or restored snapshot")
 }
@@ -649,6 +669,11 @@ func (r *Recorder) onStatus(inc *Incarnation, st raft.Status) {
 			inc.pendingConf = keep
 		}
 	}
+	// Signature of F4 also when a campaign starts: the votes of an election are requested from and
+	// counted against the configuration in force at that time.
+	if r.c.Cfg.Membership && (st.State == raft.Candidate || st.State == raft.PreCandidate) && (!had || prev.State != st.State || prev.Term != st.Term) {
+		r.checkStaleConfigurationInForce(inc, "campaign-started-with-stale-configuration-in-force")
+	}
 	// C02(a): at most one node in Leader state per term.
 	if st.State == raft.Leader {
 		if who, ok := r.leaderByTermStatus[st.Term]; ok && who != n.ID {
@@ -682,32 +707,42 @@ func (r *Recorder) noteClusterState() {
 }
 
 // onNewLeader runs at the first sample showing inc as leader of a term.
+// checkStaleConfigurationInForce: signature of known finding F4: the node leads (or campaigns)
+// with a configuration in force that is older than a configuration entry in its own log,
+// because followers adopt a configuration only when it is applied.
+func (r *Recorder) checkStaleConfigurationInForce(inc *Incarnation, probe string) {
+	if !r.c.Cfg.Membership {
+		return
+	}
+	conf, ok := r.c.configuration(inc)
+	if !ok {
+		return
+	}
+	m := inc.Node.Mirror
+	for i := len(m.Entries) - 1; i >= 1; i-- {
+		if m.Entries[i].Type == raft.ConfigurationEntry && !m.Entries[i].Placeholder {
+			if m.Entries[i].Index > conf.Index {
+				r.probe(probe)
+				if r.anyTaint == nil {
+					r.anyTaint = map[string]bool{}
+				}
+				if !r.anyTaint["F4"] {
+					r.anyTaint["F4"] = true
+					r.ev("taint * F4")
+				}
+			}
+			break
+		}
+	}
+}
+
 func (r *Recorder) onNewLeader(inc *Incarnation, st raft.Status) {
 	n := inc.Node
 	r.ev("leader %s term=%d", inc.Name(), st.Term)
 	r.probe("leader-elected")
 	r.leaderFirstSeen = append(r.leaderFirstSeen, leaderSighting{Inc: inc, Term: st.Term, Seq: r.seq, Ns: r.c.Sim.Now()})
 	m := n.Mirror
-	if conf, ok := r.c.configuration(inc); ok && r.c.Cfg.Membership {
-		// Signature of known finding F4: the node leads (and was elected) with a configuration
-		// in force that is older than a configuration entry in its own log, because followers
-		// adopt a configuration only when it is applied.
-		for i := len(m.Entries) - 1; i >= 1; i-- {
-			if m.Entries[i].Type == raft.ConfigurationEntry && !m.Entries[i].Placeholder {
-				if m.Entries[i].Index > conf.Index {
-					r.probe("leader-elected-with-stale-configuration-in-force")
-					if r.anyTaint == nil {
-						r.anyTaint = map[string]bool{}
-					}
-					if !r.anyTaint["F4"] {
-						r.anyTaint["F4"] = true
-						r.ev("taint * F4")
-					}
-				}
-				break
-			}
-		}
-	}
+	r.checkStaleConfigurationInForce(inc, "leader-elected-with-stale-configuration-in-force")
 	// C07: the new leader holds every entry committed so far.
 	missing := 0
 	for idx := m.first() + 1; idx <= r.RegMax; idx++ {
